@@ -10,12 +10,31 @@ func init() {
 		register(&Prop{ID: id,
 			Run: func(c *Ctx) {
 				runDaemonWorld(c, id, nil)
+				if id == "C04" {
+					// where requests wait for the cloud (dual stack with split idle addresses, cancellation while waiting)
+					poolSlice(c, "C07", c.Scale(60, 400), map[string]string{"C07/owner/not-holding": "C04/pool/failed-add-keeps-address"})
+				}
+				if id == "C09" {
+					// the release step GC shares with DEL, on pools with invalidated addresses
+					poolSlice(c, "C07", c.Scale(60, 400), map[string]string{"C07/owner/not-holding": "C09/pool/released-address-still-owned"})
+				}
 				if id == "C05" {
 					// the restart path between the stored records and the pool (storedrec.go)
 					srRun(c, "C05", c.Scale(400, 8000))
 				}
 			},
 			Exec2: func(c *Ctx, ops []string) ([]string, []string) {
+				if len(ops) > 0 && strings.HasPrefix(ops[0], "pl.") {
+					remap := map[string]string{"C07/owner/not-holding": map[string]string{"C04": "C04/pool/failed-add-keeps-address", "C09": "C09/pool/released-address-still-owned"}[id]}
+					sub := &Ctx{Tier: c.Tier, Seed: c.Seed, R: c.R, Dist: c.Dist, Extra: map[string]any{}, Replay: c.Replay}
+					l, o := runPoolWorlds(sub, "C07", ops)
+					for _, v := range sub.Viol {
+						if k, ok := remap[v.Key]; ok && k != "" {
+							c.Violate(k, v.What, v.Lines...)
+						}
+					}
+					return l, o
+				}
 				if len(ops) > 0 && strings.HasPrefix(ops[0], "sr.") {
 					outs := make([]string, len(ops))
 					for i, op := range ops {
